@@ -89,6 +89,32 @@ class Conv:
             "steps": steps,
         }
 
+    def segment_steps(self, c, last=True):
+        """steps for this conversation on connection name c (used by Multi)"""
+        steps = []
+        if self.direction == "in":
+            steps.append(["dial", c])
+        else:
+            steps.append(["accept", c, 4000])
+        steps.append(["recv", c, 1, 2000])
+        for i, (b, chunks) in enumerate(self.msgs):
+            steps.append(["send", c, b.hex(), chunks or 0])
+        steps += self.extra_steps_before_end
+        if self.eof == 1:
+            steps.append(["sleep", 5])
+            steps.append(["close", c])
+        elif self.eof == 2:
+            steps.append(["sleep", self.settle_ms])
+            steps.append(["reset", c])
+            steps.append(["sleep", self.settle_ms])
+        if not last or self.eof or not self.will_stay_open():
+            steps.append(["recv_eof", c, 1500])
+        if self.eof == 1:
+            steps.append(["fullclose", c])
+        if not last:
+            steps.append(["sleep", 40])     # let the peer manager retire the finished FSM
+        return steps
+
     def will_stay_open(self):
         return getattr(self, "_stay_open", False)
 
@@ -120,6 +146,63 @@ class Conv:
         ints += [c for c, _ in self.caps]
         bs += [bytes(v) for _, v in self.caps]
         return Case(60, ints, bs, self.tag)
+
+
+class Multi:
+    """Several conversations on successive connections of one peer."""
+
+    def __init__(self, sid, segs, idle_hold_ms=120, connect_retry_ms=1000, tag=""):
+        self.sid = sid
+        self.segs = segs
+        self.tag = tag
+        self.idle_hold_ms = idle_hold_ms
+        self.connect_retry_ms = connect_retry_ms
+        self.passive = all(s.direction == "in" for s in segs)
+        self.extra_tail = []
+
+    def scenario(self):
+        s0 = self.segs[0]
+        steps = []
+        for k, seg in enumerate(self.segs):
+            steps += seg.segment_steps("c%d" % (k + 1), last=(k == len(self.segs) - 1))
+        steps += self.extra_tail
+        sc = s0.scenario()
+        sc.update({"id": self.sid, "passive": self.passive, "idle_hold_ms": self.idle_hold_ms,
+                   "connect_retry_ms": self.connect_retry_ms, "steps": steps})
+        return sc
+
+    def model_cases(self):
+        out = []
+        for k, seg in enumerate(self.segs):
+            c = seg.model_case()
+            if k < len(self.segs) - 1:
+                c.ints[5] = 9998
+            out.append(c)
+        return out
+
+
+def expected_multi(multis):
+    lines, idx = [], []
+    for m in multis:
+        cs = m.model_cases()
+        idx.append(len(cs))
+        lines += [c.line() for c in cs]
+    outs = run_parallel(os.path.join(BIN, "model_driver"), lines)
+    res, pos = [], 0
+    for n in idx:
+        per = [parse_model_tokens(o) for o in outs[pos:pos + n]]
+        pos += n
+        res.append({"wire": [p["wire"] for p in per], "cbs": [x for p in per for x in p["cbs"]],
+                    "closed": [p["closed"] for p in per], "rets": [x for p in per for x in p["rets"]]})
+    return res
+
+
+def observe_multi(res, n):
+    per = [observe(res, "c%d" % (k + 1)) for k in range(n)]
+    o = {"wire": [p["wire"] for p in per], "cbs": per[0]["cbs"], "closed": [p["closed"] for p in per],
+         "rets": [(d, ("nil",) if ec == ("<nil>",) else ec) for d, ec in per[0]["rets"]],
+         "garbage": "".join(p["garbage"] for p in per)}
+    return o
 
 
 def parse_model_tokens(line):
